@@ -16,6 +16,9 @@ func adjust_axis(crs *SR, denorm bool, point []float64) ([]float64, error) {
 			v = point[1]
 			t = 1
 		} else {
+			if len(point) < 3 {
+				continue // two-dimensional point: there is no third axis to adjust
+			}
 			v = point[2]
 			t = 2
 		}
